@@ -121,6 +121,23 @@ func c06Monitor(st *engine.Step) {
 			st.Report(engine.Violation{Rule: "C06/other-account-affected", Detail: "a step that does not concern the bystander modified its row or remember tokens (" + st.Act.Name + ")"})
 		}
 	}
+	// revocation in storage, whether or not the remember module is loaded in this process
+	if a, b := st.Pre.Truth.Ints["c06:changes:"+U1], st.Post.Truth.Ints["c06:changes:"+U1]; b > a && len(st.Post.DB.Tokens[U1]) > 0 && len(st.Pre.DB.Tokens[U1]) > 0 && (st.S.Cfg.Has("remember") || st.Obs == nil) {
+		// (a recovery in a process that has not loaded the remember module has no handler that could revoke them;
+		// the programmatic update revokes through the storer whenever the storer can)
+		kept := false
+		for _, t := range st.Post.DB.Tokens[U1] {
+			for _, t0 := range st.Pre.DB.Tokens[U1] {
+				if t == t0 {
+					kept = true
+				}
+			}
+		}
+		if kept {
+			st.Report(engine.Violation{Rule: "C06/remember-tokens-not-revoked", Attrs: fmt.Sprintf("remember-loaded=%v", st.S.Cfg.Has("remember")),
+				Detail: "after a completed password change the account still has a remember token that was stored before the change"})
+		}
+	}
 	// salting: two completed changes to the same password give different stored values
 	if a, b := st.Pre.Truth.Ints["c06:changes:"+U1], st.Post.Truth.Ints["c06:changes:"+U1]; b > a {
 		cur := st.Post.Truth.Flags["c06:pw:"+U1]
@@ -277,6 +294,11 @@ func c06Scenarios(tier string) []engine.Scenario {
 					flows.SeedAcct(s, w, flows.Acct{PID: U2, Password: P2})
 					w.Truth.Flags["c06:pw:"+U1] = P1
 					w.Truth.Flags["c06:hashof:"+P1] = w.DB.Users[U1].Password
+					if !rem {
+						// the remember module is not loaded in this process, but the shared storage holds tokens
+						// (issued by another service of the same deployment): a password change revokes them all the same
+						w.DB.Tokens[U1] = []string{"dG9rZW4taXNzdWVkLWVsc2V3aGVyZQ=="}
+					}
 					return w
 				},
 				Model: c06Model, Monitor: c06Monitor, State: c06State, Cover: c06Cover,
